@@ -318,9 +318,10 @@ func (r *recorder) recordIncomingRTCP(latestStats internalStats, incoming *incom
 				latestStats.OutboundRTPStreamStats.NACKCount++
 			}
 		case *rtcp.FullIntraRequest:
-			if pkt.MediaSSRC == r.ssrc {
-				latestStats.OutboundRTPStreamStats.FIRCount++
-			}
+			// A FIR is addressed by its FCI entries, which DestinationSSRC()
+			// matched above. Its media source SSRC is unused and zero on the
+			// wire (RFC 5104, 4.3.1.2).
+			latestStats.OutboundRTPStreamStats.FIRCount++
 		case *rtcp.PictureLossIndication:
 			if pkt.MediaSSRC == r.ssrc {
 				latestStats.OutboundRTPStreamStats.PLICount++
